@@ -101,7 +101,7 @@ func run(r *ev.Run) {
 		r.Count("docs_"+k.String(), len(c.docs))
 		phase("index-" + k.String())
 		qs := crossQueries(k, core)
-		qs = append(qs, randomQueries(k, vals, r.Rng("queries-"+k.String()), r.Scale(4000, 200000))...)
+		qs = append(qs, randomQueries(k, vals, r.Rng("queries-"+k.String()), r.Scale(12000, 200000))...)
 		runRangeQueries(r, st, engs, c, qs, "main", 16)
 		phase("range-queries-" + k.String())
 		r.JournalReset()
